@@ -97,6 +97,13 @@ func decToMinDec(dec float64, latitude bool) string {
 	deg := int(dec)
 	min := (dec - float64(deg)) * 60.0
 
+	// Round to the printed precision first and carry into the degrees, so
+	// that the minutes are never printed as 60.0000.
+	if min = math.Round(min*1e4) / 1e4; math.Abs(min) >= 60 {
+		deg += int(min / 60)
+		min = 0
+	}
+
 	var format string
 	if latitude {
 		format = "%02.0f-%07.4f%c"
